@@ -326,7 +326,7 @@ fn eval_random(d: &Vec<u8>) -> Outcome {
 #[derive(Clone, Debug, Serialize, Deserialize, PartialEq, Eq, Hash)]
 pub struct AdtsBatch {
     pub protection_absent: bool,
-    /// buffer length minus declared length: -1, 0, +3
+    /// buffer length minus declared length: -1, 0, +3; 100: declared length followed by a second complete valid frame
     pub rel: i8,
     pub first_len: u16,
     pub count: u16,
@@ -378,7 +378,8 @@ pub fn eval_adts(b: &AdtsBatch) -> Outcome {
     let hdr = if b.protection_absent { 7usize } else { 9 };
     for k in 0..b.count {
         let declared = (b.first_len as usize + k as usize).min(8191);
-        let buf_len = (declared as i64 + b.rel as i64).max(0) as usize;
+        // rel == 100: exactly the declared length, followed by a second complete, valid ADTS frame (a PES-style buffer)
+        let buf_len = (declared as i64 + if b.rel == 100 { 0 } else { b.rel as i64 }).max(0) as usize;
         let mut f = vec![0u8; hdr.min(buf_len.max(7))];
         f.resize(buf_len.max(0), 0);
         if f.len() >= 7 {
@@ -396,6 +397,10 @@ pub fn eval_adts(b: &AdtsBatch) -> Outcome {
             for (i, x) in body.iter().enumerate() {
                 f[7 + i] = *x;
             }
+        }
+        if b.rel == 100 && f.len() >= 7 {
+            let second = AdtsGene { protection_absent: k % 2 == 0, profile: 1, sfi: b.fields % 13, chan: 1 + (b.fields >> 4) % 7, payload_len: 5 + (k % 9), extra: 0, fill: 0, corrupt: 0, misc: 0 }.build(0x77).0;
+            f.extend_from_slice(&second);
         }
         frames.push(f.clone());
         ops.push(COp::Audio { pts: k as f64 * 0.02, data: f });
@@ -488,7 +493,7 @@ fn run_adts(ctx: &Ctx) -> SubReport {
         let mut all = Vec::new();
         let mut idx = 0usize;
         for pa in [true, false] {
-            for rel in [-1i8, 0, 3] {
+            for rel in [-1i8, 0, 3, 100] {
                 for &(fl, misc) in &fields {
                     let mut start = 0u16;
                     while start < 8192 {
